@@ -489,6 +489,9 @@ func runC04(c *Ctx) {
 	c04Stamped(c, "C04-R5")
 	c04EmptyMatcher(c, "C04-R5")
 	c04LostUpdates(c, "C04-R5")
+	c04NoExperimentalFlag(c, "C04-R2")
+	c04CanHaveLabelInputs(c, "C04-R5")
+	c04EveryBranchEmitted(c, "C04-R5")
 
 	c04Narrowing(c, "C04-R3", false)
 
@@ -545,6 +548,8 @@ func runC12(c *Ctx) {
 	c04Ownership(c, "C12-R6")
 	c04LostUpdates(c, "C12-R6")
 	c12PerNameInclusion(c, "C12-R6")
+	c04NoExperimentalFlag(c, "C12-R2")
+	c04EveryBranchEmitted(c, "C12-R6")
 	c12JoinOperands(c, "C12-R7")
 	c.Rule("C12-R8", "AlwaysReturns does not survive filtering set operators", 1)
 	c12AlwaysReturns(c, "C12-R8")
